@@ -114,17 +114,35 @@ impl<'a> CompiledPredicate<'a> {
         self.scalar_subquery_results = results;
     }
 
+    /// A row passes the filter only when the predicate is TRUE (not FALSE, not UNKNOWN).
     pub fn evaluate(&self, row: &ExecutorRow<'a>) -> bool {
-        self.eval_expr(self.expr, row)
+        self.eval_expr(self.expr, row) == Some(true)
     }
 
-    fn eval_expr(&self, expr: &crate::sql::ast::Expr<'a>, row: &ExecutorRow<'a>) -> bool {
-        use crate::sql::ast::{BinaryOperator, Expr, Literal};
+    /// SQL three-valued evaluation: Some(true) / Some(false) / None for UNKNOWN.
+    fn eval_expr(
+        &self,
+        expr: &crate::sql::ast::Expr<'a>,
+        row: &ExecutorRow<'a>,
+    ) -> Option<bool> {
+        use crate::sql::ast::{BinaryOperator, Expr, Literal, UnaryOperator};
 
         match expr {
             Expr::BinaryOp { left, op, right } => match op {
-                BinaryOperator::And => self.eval_expr(left, row) && self.eval_expr(right, row),
-                BinaryOperator::Or => self.eval_expr(left, row) || self.eval_expr(right, row),
+                BinaryOperator::And => {
+                    match (self.eval_expr(left, row), self.eval_expr(right, row)) {
+                        (Some(false), _) | (_, Some(false)) => Some(false),
+                        (Some(true), Some(true)) => Some(true),
+                        _ => None,
+                    }
+                }
+                BinaryOperator::Or => {
+                    match (self.eval_expr(left, row), self.eval_expr(right, row)) {
+                        (Some(true), _) | (_, Some(true)) => Some(true),
+                        (Some(false), Some(false)) => Some(false),
+                        _ => None,
+                    }
+                }
                 BinaryOperator::Eq
                 | BinaryOperator::NotEq
                 | BinaryOperator::Lt
@@ -133,18 +151,28 @@ impl<'a> CompiledPredicate<'a> {
                 | BinaryOperator::GtEq => {
                     let left_val = self.eval_value(left, row);
                     let right_val = self.eval_value(right, row);
-                    self.compare_values(&left_val, &right_val, op)
+                    if matches!(left_val, Some(Value::Null) | None)
+                        || matches!(right_val, Some(Value::Null) | None)
+                    {
+                        return None;
+                    }
+                    Some(self.compare_values(&left_val, &right_val, op))
                 }
-                _ => true,
+                _ => Some(true),
             },
-            Expr::Literal(Literal::Boolean(b)) => *b,
+            Expr::UnaryOp {
+                op: UnaryOperator::Not,
+                expr: inner,
+            } => self.eval_expr(inner, row).map(|b| !b),
+            Expr::Literal(Literal::Boolean(b)) => Some(*b),
+            Expr::Literal(Literal::Null) => None,
             Expr::Like { .. } | Expr::Between { .. } | Expr::InList { .. } | Expr::IsNull { .. } => {
                 match self.eval_value(expr, row) {
-                    Some(Value::Int(n)) => n != 0,
-                    _ => false,
+                    Some(Value::Int(n)) => Some(n != 0),
+                    _ => None,
                 }
             }
-            _ => true,
+            _ => Some(true),
         }
     }
 
@@ -184,6 +212,15 @@ impl<'a> CompiledPredicate<'a> {
                 }
             }),
             Expr::BinaryOp { left, op, right } => {
+                if matches!(
+                    op,
+                    crate::sql::ast::BinaryOperator::And | crate::sql::ast::BinaryOperator::Or
+                ) {
+                    // an operand without a value is UNKNOWN; FALSE AND UNKNOWN is still FALSE
+                    let left_val = self.eval_value(left, row).unwrap_or(Value::Null);
+                    let right_val = self.eval_value(right, row).unwrap_or(Value::Null);
+                    return self.eval_binary_op(&left_val, op, &right_val);
+                }
                 let left_val = self.eval_value(left, row)?;
                 let right_val = self.eval_value(right, row)?;
                 self.eval_binary_op(&left_val, op, &right_val)
@@ -213,14 +250,30 @@ impl<'a> CompiledPredicate<'a> {
                 list,
             } => {
                 let target_val = self.eval_value(expr, row)?;
+                if matches!(target_val, Value::Null) {
+                    // NULL [NOT] IN (..) is UNKNOWN, except over an empty list
+                    return if list.is_empty() {
+                        Some(Value::Int(if *negated { 1 } else { 0 }))
+                    } else {
+                        Some(Value::Null)
+                    };
+                }
                 let mut found = false;
+                let mut saw_null = false;
                 for list_item in list.iter() {
-                    if let Some(list_val) = self.eval_value(list_item, row) {
-                        if self.values_equal(&target_val, &list_val) {
-                            found = true;
-                            break;
+                    match self.eval_value(list_item, row) {
+                        Some(Value::Null) | None => saw_null = true,
+                        Some(list_val) => {
+                            if self.values_equal(&target_val, &list_val) {
+                                found = true;
+                                break;
+                            }
                         }
                     }
+                }
+                if !found && saw_null {
+                    // no match, but a NULL element might have been one: UNKNOWN
+                    return Some(Value::Null);
                 }
                 let result = if *negated { !found } else { found };
                 Some(Value::Int(if result { 1 } else { 0 }))
@@ -234,6 +287,24 @@ impl<'a> CompiledPredicate<'a> {
                 let val = self.eval_value(expr, row)?;
                 let low_val = self.eval_value(low, row)?;
                 let high_val = self.eval_value(high, row)?;
+                let ge_low = self
+                    .value_cmp(&val, &low_val)
+                    .map(|o| o != std::cmp::Ordering::Less);
+                let le_high = self
+                    .value_cmp(&val, &high_val)
+                    .map(|o| o != std::cmp::Ordering::Greater);
+                if matches!(val, Value::Null)
+                    || matches!(low_val, Value::Null)
+                    || matches!(high_val, Value::Null)
+                {
+                    // x BETWEEN lo AND hi is (x >= lo AND x <= hi) under three-valued logic
+                    return match (ge_low, le_high) {
+                        (Some(false), _) | (_, Some(false)) => {
+                            Some(Value::Int(if *negated { 1 } else { 0 }))
+                        }
+                        _ => Some(Value::Null),
+                    };
+                }
                 let in_range = self
                     .value_cmp(&val, &low_val)
                     .is_some_and(|o| o != std::cmp::Ordering::Less)
@@ -252,6 +323,9 @@ impl<'a> CompiledPredicate<'a> {
             } => {
                 let val = self.eval_value(expr, row)?;
                 let pat = self.eval_value(pattern, row)?;
+                if matches!(val, Value::Null) || matches!(pat, Value::Null) {
+                    return Some(Value::Null);
+                }
                 let matches = match (&val, &pat) {
                     (Value::Text(s), Value::Text(p)) => self.like_match(s, p, *case_insensitive),
                     _ => false,
@@ -358,6 +432,7 @@ impl<'a> CompiledPredicate<'a> {
             },
             UnaryOperator::Not => match val {
                 Value::Int(n) => Some(Value::Int(if *n == 0 { 1 } else { 0 })),
+                Value::Null => Some(Value::Null),
                 _ => None,
             },
             UnaryOperator::BitwiseNot => match val {
@@ -1115,18 +1190,29 @@ impl<'a> CompiledPredicate<'a> {
             | BinaryOperator::LtEq
             | BinaryOperator::Gt
             | BinaryOperator::GtEq => {
+                if matches!(left, Value::Null) || matches!(right, Value::Null) {
+                    return Some(Value::Null);
+                }
                 let result = self.compare_values(&Some(left.clone()), &Some(right.clone()), op);
                 Some(Value::Int(if result { 1 } else { 0 }))
             }
             BinaryOperator::And => {
-                let l = self.value_to_bool(left);
-                let r = self.value_to_bool(right);
-                Some(Value::Int(if l && r { 1 } else { 0 }))
+                let l = (!matches!(left, Value::Null)).then(|| self.value_to_bool(left));
+                let r = (!matches!(right, Value::Null)).then(|| self.value_to_bool(right));
+                match (l, r) {
+                    (Some(false), _) | (_, Some(false)) => Some(Value::Int(0)),
+                    (Some(true), Some(true)) => Some(Value::Int(1)),
+                    _ => Some(Value::Null),
+                }
             }
             BinaryOperator::Or => {
-                let l = self.value_to_bool(left);
-                let r = self.value_to_bool(right);
-                Some(Value::Int(if l || r { 1 } else { 0 }))
+                let l = (!matches!(left, Value::Null)).then(|| self.value_to_bool(left));
+                let r = (!matches!(right, Value::Null)).then(|| self.value_to_bool(right));
+                match (l, r) {
+                    (Some(true), _) | (_, Some(true)) => Some(Value::Int(1)),
+                    (Some(false), Some(false)) => Some(Value::Int(0)),
+                    _ => Some(Value::Null),
+                }
             }
         }
     }
